@@ -227,6 +227,14 @@ class Generation:
             # real pipe decides what the write does
             rec['on_dead'] = True
             fault = None
+        if fault is not None and fault['phase'] == 'gc_now':
+            # not a fault of the helper: the simulator decides that the garbage collector
+            # runs its finalizers at THIS protocol point (inside CompiledSubprocess._send)
+            import gc
+            rec['gc_now'] = True
+            p.fired.append({'k': k, 'phase': 'gc_now', 'fn': fname, 'gen': self.index})
+            gc.collect()
+            fault = None
         if fault is not None:
             rec['fault'] = fault['phase']
             p.fired.append({'k': k, 'phase': fault['phase'], 'fn': fname, 'gen': self.index})
